@@ -1,5 +1,6 @@
 import Hive.Model.WorkerPoolSched
 import Hive.Model.WorkerPoolGroupSd
+import Hive.Model.WorkerPoolSync
 import Hive.Base.Proto
 /-!
 # Line protocol of `drv_c16`
@@ -16,6 +17,7 @@ structure DrvSt where
   mon : Option Mon := some Mon.init
   gs : Hive.WPG.GS := {}
   subs : List Hive.WPG.Sub := []
+  sync : Hive.WPS.SyncSt := {}
 
 def DrvSt.init : DrvSt := {}
 
@@ -25,6 +27,9 @@ def stepLine (s : DrvSt) (toks : List String) : DrvSt × String :=
   | "run" :: _ => (s, "ok")
   | "hammer" :: _ => (s, "ok")
   | "lockrace" :: _ => (s, "ok")
+  | "sync" :: _ => ({ s with sync := {} }, "ok")
+  | ["c", op, a] => let r := Hive.WPS.syncLine s.sync "c" op a; ({ s with sync := r.1 }, r.2)
+  | ["q", op, a] => let r := Hive.WPS.syncLine s.sync "q" op a; ({ s with sync := r.1 }, r.2)
   | "group" :: _ => ({ s with gs := {}, subs := [] }, "ok")
   | ["g", op, a] =>
     let parsed : Option Hive.WPG.SOp :=
